@@ -30,12 +30,19 @@ def run(tier):
     ev.configs = [n for n, _ in b]
     plan = [("c01_encrypt", 150000 if tier == "quick" else 1500000, 100)]
     rcrun.run_rc(ev, b, plan, finding_key)
+    if tier == "thorough":
+        import huge
+        huge.run(ev, [("huge_aead", 3, 2)])     # messages / associated data of 2^32 + k bytes
+        ev.assumptions = [a for a in ev.assumptions if not a.startswith("inputs < 2^32")] + ["inputs of 2^32 bytes and more: metamorphic oracles only (the reference is too slow)"]
     return finish(ev)
 
 
 def replay(path):
     import json
     cfgname = json.load(open(path))["config"]
+    if cfgname.endswith("+huge"):
+        import huge
+        return rcrun.replay_file(PROP, path, lambda cfg: huge.replay_bin(cfg))
     allc = {c.name: c for c in cfgs("thorough") + cfgs("quick")}
     b = dict(hb.harness_bins("aead", "aead.cpp", [allc[cfgname]], tape="words"))
     return rcrun.replay_file(PROP, path, lambda cfg: b[cfg])
